@@ -215,7 +215,7 @@ Lemma liberal_covers s p size start full mask :
   s_base s <= p -> p + size <= s_base s + s_size s ->
   segment_commit_mask s false p size = (start, full, mask) ->
   (forall a, p <= a -> a < p + size -> N.testbit mask ((a - s_base s) / CS) = true) /\
-  start <= p /\ p + size <= start + full /\
+  start <= p /\ p + size <= start + full /\ start + full <= s_base s + s_size s /\
   exists i c, start = s_base s + i * CS /\ full = c * CS /\ 0 < c /\ i + c <= MASK_BITS /\
               forall k, N.testbit mask k = (i <=? k) && (k <? i + c).
 Proof.
@@ -236,8 +236,9 @@ Proof.
   injection E as <- <- <-.
   assert (Hbits : forall k, N.testbit (commit_mask_create (st / 65536) ((en - st) / 65536)) k = (st / 65536 <=? k) && (k <? st / 65536 + (en - st) / 65536)).
   { intros k. apply create_bit. rewrite MASK_BITS_val. lia. }
-  split; [|split; [|split]].
+  split; [|split; [|split; [|split]]].
   - intros a A1 A2. rewrite Hbits. apply andb_true_intro. split; [apply N.leb_le|apply N.ltb_lt]; unfold pstart in *; lia.
+  - unfold pstart in *; lia.
   - unfold pstart in *; lia.
   - unfold pstart in *; lia.
   - exists (st / 65536), ((en - st) / 65536). repeat split; try lia. exact Hbits.
